@@ -233,4 +233,10 @@ func C02(r *chk.Run) {
 	r.Assume("SkipMagic and custom-codec configurations are excluded: Reader cannot open/decompress them")
 	r.Rule("indexable configurations (chunk indexes + repeated schemas + repeated channels): file-order indexed sequence must equal the scan element-wise, time orders must be permutations; every other configuration: equal to the scan or an error, never fewer messages; every attachment/metadata index entry is dereferenced; metadata callback counted on both paths")
 	writerSpace(r, so, c02Oracle)
+	// the fall-back decision must not depend on what the Reader was used for before (Info, other iterators)
+	d := 3
+	if r.Thorough() {
+		d = 4
+	}
+	histPhase(r, "C02", d)
 }
